@@ -60,7 +60,7 @@ func c08Input(safe bool, name string, args []*variants.Variant) sx.SX {
 	seen := map[string]bool{}
 	var as sx.List
 	for _, a := range args {
-		as = append(as, valSX(a))
+		as = append(as, valSXin(a))
 		oracleFor(a, &orc, seen)
 	}
 	up := strings.ToUpper(name)
